@@ -65,7 +65,7 @@ fn params_dec_tag() {
     }
 }
 
-//@ harness: params_dec_compact class=B tier=quick bound="tag 1, signblockscript length byte 2"
+//@ harness: params_dec_compact class=B tier=thorough bound="tag 1, signblockscript length byte 2" timeout=3000
 //@ clause: Params decode, tag 1 (compact): accepted, consumes 1+1+2+4+32 bytes (one-byte truncation rejected); fields are script, little-endian limit, 32-byte elided root in order; re-encoding reproduces the bytes
 #[kani::proof]
 fn params_dec_compact() {
